@@ -14,7 +14,7 @@ pub fn meta() -> Meta {
     Meta {
         rule: "write side: packets (queries and responses) with OPT {udp, version, options} x rcode in the named set x 0..3 other additional records are serialised (plain and \
 compressed) and walked by the independent decoder: exactly one TYPE-41 record, in the additional section, counted once in ARCOUNT, owner = single 00, \
-CLASS = udp size, TTL bytes = [rcode>>4, version, *, *], header RCODE bits = rcode & 15, RDATA = concatenated code/len/value triples. read side: \
+CLASS = udp size, TTL bytes = [rcode>>4, version, *, *], header RCODE bits = rcode & 15 and the rest of the header word as given, RDATA = concatenated code/len/value triples. read side: \
 reference-encoded third-party messages with the OPT record at every position of the additional section, all 256 extended-RCODE x 16 header-RCODE \
 combinations (each once with QR set and once with QR clear; random opcode and flag bits elsewhere), version 0..255, boundary udp sizes, random DO/Z bits and option lists must parse with the OPT removed from additional_records, opt() \
 exposing udp/version/options and rcode() equal to the recombined 12-bit code (named codes; Reserved otherwise). Anchored by a hand-assembled RFC-layout \
@@ -98,7 +98,7 @@ pub fn write_side(ctx: &mut Ctx, idx: u64) {
         }
         match parse_obs(&out) {
             Ok(Ok(back)) => {
-                if back.edns != p.edns || back.rcode != p.rcode || back.secs[1].len() != p.secs[1].len() || back.secs[2].len() != p.secs[2].len() {
+                if back.edns != p.edns || back.rcode != p.rcode || back.flags != (p.flags & FLAG_MASK) || back.opcode != p.opcode || back.secs[1].len() != p.secs[1].len() || back.secs[2].len() != p.secs[2].len() {
                     ctx.violation("opt-record", "own-output-edns-lost", format!("parsing the library's own output shows edns {:?} rcode {} sections {}/{}/{}", back.edns.as_ref().map(|e| (e.udp, e.version)), back.rcode, back.secs[0].len(), back.secs[1].len(), back.secs[2].len()), case());
                 }
             }
@@ -119,6 +119,8 @@ pub fn write_side(ctx: &mut Ctx, idx: u64) {
             (ttl[0] != (rc >> 4) as u8, "ttl-extended-rcode"),
             (ttl[1] != e.version, "ttl-version"),
             ((t.env.flags & 0xF) != (rc & 0xF), "header-rcode-bits"),
+            // the twelve bits go to those two places and nowhere else: the rest of the header word is what the packet was given
+            ((t.env.flags & 0xFFF0) != ((p.flags & FLAG_MASK) | ((p.opcode & 0xF) << 11)), "header-word-outside-rcode"),
             (rdata != &want_rd[..], "rdata-options"),
         ].iter().filter(|(bad, _)| *bad).map(|(_, n)| *n).collect();
         if let Some(first) = problems.first() {
